@@ -199,7 +199,12 @@ fn ext_send(sid: &[u8], r: &ReceiverOTSeed, a: &Shares, r1: &[u8], tape: &[u8]) 
         let mut out = Box::new(rvole::RVOLEOutput::default());
         let mut rng = TapeRng::new(tape.to_vec());
         match rvole::RVOLESender::process(sid, r, a, &m, &mut out, &mut rng) {
-            Ok(c) => Ok((c, bytemuck::bytes_of(&*out).to_vec(), rng.used)),
+            Ok(c) => {
+                // out-buffer probe
+                let mut out2 = Box::new(rvole::RVOLEOutput::default());
+                bytemuck::bytes_of_mut(&mut *out2).iter_mut().for_each(|b| *b = crate::report::dirty_fill(tape));
+                if rvole::RVOLESender::process(sid, r, a, &m, &mut out2, &mut TapeRng::new(tape.to_vec())).is_ok() && bytemuck::bytes_of(&*out2) != bytemuck::bytes_of(&*out) { crate::report::outbuf_dependence("RVOLESender::process(RVOLEOutput)"); }
+                Ok((c, bytemuck::bytes_of(&*out).to_vec(), rng.used)) }
             Err(_) => Err(()),
         }
     })).ok()
@@ -223,6 +228,12 @@ fn ot_recv_new(sid: &[u8; 32], tape: &[u8]) -> Option<(OtRecv, Vec<u8>, Scalar, 
         let mut m1 = Box::new(otv::RVOLEMsg1::default());
         let mut rng = TapeRng::new(tape.to_vec());
         let (st, ra, rb, b) = otv::RVOLEReceiver::new(*sid, &mut m1, &mut rng);
+        {
+            let mut m2 = Box::new(otv::RVOLEMsg1::default());
+            bytemuck::bytes_of_mut(&mut *m2).iter_mut().for_each(|b| *b = crate::report::dirty_fill(tape));
+            let _ = otv::RVOLEReceiver::new(*sid, &mut m2, &mut TapeRng::new(tape.to_vec()));
+            if bytemuck::bytes_of(&*m2) != bytemuck::bytes_of(&*m1) { crate::report::outbuf_dependence("RVOLEReceiver::new(RVOLEMsg1), base-OT variant"); }
+        }
         (OtRecv { st, ra, rb }, bytemuck::bytes_of(&*m1).to_vec(), b, rng.used)
     })).ok()
 }
@@ -234,6 +245,11 @@ fn ot_send(sid: &[u8], a: &Shares, msg1: &[u8], tape: &[u8]) -> Option<(Result<S
         let mut out = Box::new(otv::RVOLEMsg2::default());
         let mut rng = TapeRng::new(tape.to_vec());
         let r = otv::RVOLESender::process(sid, a, &m1, &mut out, &mut rng).map_err(|e| e.to_string());
+        if r.is_ok() {
+            let mut out2 = Box::new(otv::RVOLEMsg2::default());
+            bytemuck::bytes_of_mut(&mut *out2).iter_mut().for_each(|b| *b = crate::report::dirty_fill(tape));
+            if otv::RVOLESender::process(sid, a, &m1, &mut out2, &mut TapeRng::new(tape.to_vec())).is_ok() && bytemuck::bytes_of(&*out2) != bytemuck::bytes_of(&*out) { crate::report::outbuf_dependence("RVOLESender::process(RVOLEMsg2), base-OT variant"); }
+        }
         (r, bytemuck::bytes_of(&*out).to_vec(), rng.used)
     })).ok()
 }
